@@ -1,11 +1,15 @@
 #!/bin/sh
 # usage: tools/confirm_seed.sh Cxx-name /tmp/wt_Cxx /tmp/seed_Cxx   (worktree has the change applied)
+# (no `git stash`: the stash is shared by all worktrees of a repository)
 ID=$1; WT=$2; SD=$3
 cd $WT || exit 9
+git diff > /tmp/confirm_$ID.diff
+cmp -s /tmp/confirm_$ID.diff $SD/patch.diff || echo "note: worktree diff differs from $SD/patch.diff"
 T=$(/venv/bin/python -m pytest -q -p no:cacheprovider --timeout=900 --continue-on-collection-errors 2>&1 | tail -1)
-PYTHONPATH=$WT/lib timeout 900 /venv/bin/python $SD/demo.py >/tmp/demo_with.out 2>&1; W=$?
-git stash -q
-PYTHONPATH=$WT/lib timeout 900 /venv/bin/python $SD/demo.py >/tmp/demo_without.out 2>&1; WO=$?
-git stash pop -q
+PYTHONPATH=$WT/lib timeout 900 /venv/bin/python $SD/demo.py >/tmp/demo_with_$ID.out 2>&1; W=$?
+git apply -R /tmp/confirm_$ID.diff || exit 8
+PYTHONPATH=$WT/lib timeout 900 /venv/bin/python $SD/demo.py >/tmp/demo_without_$ID.out 2>&1; WO=$?
+git apply /tmp/confirm_$ID.diff
 echo "$ID tests: $T | demo with change exit=$W | without exit=$WO"
 echo "$T" | grep -q "179 passed" && [ $W -ne 0 ] && [ $WO -eq 0 ] && echo CONFIRMED || echo NOT-CONFIRMED
+rm -f /tmp/confirm_$ID.diff /tmp/demo_with_$ID.out /tmp/demo_without_$ID.out
